@@ -184,6 +184,28 @@ carquet_status_t carquet_read_dictionary_page(
             break;
     }
 
+    /* The entry count comes from the file: it must be consistent with the
+     * page that carries the entries before anything is sized from it. */
+    if (header->num_values < 0) {
+        CARQUET_SET_ERROR(error, CARQUET_ERROR_INVALID_PAGE, "Negative dictionary entry count");
+        return CARQUET_ERROR_INVALID_PAGE;
+    }
+    if (reader->type == CARQUET_PHYSICAL_BYTE_ARRAY) {
+        if ((size_t)header->num_values > page_size / 4) {
+            CARQUET_SET_ERROR(error, CARQUET_ERROR_INVALID_PAGE, "Dictionary page too small for its entry count");
+            return CARQUET_ERROR_INVALID_PAGE;
+        }
+    } else {
+        if (value_size == 0) {
+            CARQUET_SET_ERROR(error, CARQUET_ERROR_INVALID_PAGE, "Dictionary page for a type without fixed value size");
+            return CARQUET_ERROR_INVALID_PAGE;
+        }
+        if ((size_t)header->num_values > page_size / value_size) {
+            CARQUET_SET_ERROR(error, CARQUET_ERROR_INVALID_PAGE, "Dictionary page too small for its entry count");
+            return CARQUET_ERROR_INVALID_PAGE;
+        }
+    }
+
     reader->dictionary_count = header->num_values;
 
     if (reader->type == CARQUET_PHYSICAL_BYTE_ARRAY) {
